@@ -390,10 +390,235 @@ def r_parser(P, R):
                     '_reset_state no longer drops the manager and '
                     'restarts the LR stacks', unit=g.unit.rel,
                     line=g.lineno)
+    parser_binding(P, R)
 r_parser.NAME = 'R-PAIR(parser state)'
 
 
+def parser_binding(P, R):
+    """The translator is one object shared by all managers and all calls
+    (dd._parser caches it).  Whatever a call left in it - also a call that
+    ended with an exception, which skips `_reset_state` - must not reach
+    the next call: `parse` binds the manager it was given on every path
+    before the grammar actions run, and reads nothing of the old state
+    before that."""
+    f = P.func('dd._parser._Translator.parse')
+    g = P.func('dd._parser._Translator._reset_state')
+    params = [a.arg for a in f.node.args.args if a.arg != 'self']
+    state = set()
+    for s in au.walk_no_defs(g.node):
+        if isinstance(s, ast.Assign) and isinstance(
+                s.value, ast.Constant) and s.value.value is None:
+            ch = au.chain(s.targets[0])
+            if ch and ch[0] == 'self' and len(ch) == 2:
+                state.add(ch[1])
+    if not state:
+        raise AnalysisError(
+            'R-PAIR/parser-binding: _reset_state drops no attribute')
+    protected = any(
+        isinstance(t, ast.Try) and any(
+            au.call_name(c) == '_reset_state'
+            for st in t.finalbody for c in au.calls_in(st))
+        for t in au.walk_no_defs(f.node))
+    n_paths = 0
+    for path in pa.function_paths(f.node):
+        n_paths += 1
+        bound = set()
+        for it in path:
+            node = it[1] if it[0] in ('stmt', 'test') else None
+            if node is None:
+                continue
+            is_bind = None
+            if it[0] == 'stmt' and isinstance(node, ast.Assign):
+                ch = au.chain(node.targets[0])
+                if ch and ch[0] == 'self' and len(ch) == 2 and \
+                        ch[1] in state and isinstance(
+                            node.value, ast.Name) and \
+                        node.value.id in params:
+                    is_bind = ch[1]
+            reads = set()
+            scan = node.value if is_bind else node
+            for x in ast.walk(scan):
+                if isinstance(x, ast.Attribute) and isinstance(
+                        x.ctx, ast.Load) and au.chain(x) and au.chain(
+                            x)[:1] == ['self'] and x.attr in state and \
+                        len(au.chain(x)) == 2:
+                    reads.add(x.attr)
+            stale = reads - bound
+            if stale and not protected:
+                a = sorted(stale)[0]
+                R.violation(
+                    'R-PAIR', 'parser-stale-state', f.qualname, a,
+                    f'`{au.short(node, 60)}` reads `self.{a}` before '
+                    'this call has bound it: the value is what the '
+                    'previous call left behind, and a call that ended '
+                    'with an exception (undeclared variable, request '
+                    'for reordering) does not reset it - the cached '
+                    'translator then works for, or refuses, the wrong '
+                    'manager', unit=f.unit.rel, line=node.lineno)
+            if is_bind:
+                bound.add(is_bind)
+            calls_super = any(
+                au.call_name(c) == 'parse' for c in au.calls_in(node))
+            if calls_super:
+                missing = state - bound
+                if missing:
+                    R.violation(
+                        'R-PAIR', 'parser-unbound', f.qualname,
+                        sorted(missing)[0],
+                        f'a path reaches `{au.short(node, 50)}` without '
+                        f'binding `self.{sorted(missing)[0]}` to the '
+                        'argument of this call: the grammar actions '
+                        'build nodes in the manager of an earlier call',
+                        unit=f.unit.rel, line=node.lineno,
+                        path=pa.describe(path))
+                break
+    R.holds('R-PAIR', f.qualname,
+            f'{n_paths} path(s): state {sorted(state)} is bound from the '
+            'arguments before the grammar runs and not read before')
+
+
+
+def operands_held(P, R):
+    """A dd.autoref method keeps its arguments bound while the integer
+    manager works.  The caller may pass temporaries (`bdd.let({x: f & g},
+    u)`): in CPython >= 3.11 the arguments of a Python-to-Python call live
+    in the callee's frame only, so rebinding or deleting a parameter drops
+    the last reference, `Function.__del__` releases the node, and a
+    manager call that reorders (sifting collects garbage) frees it while
+    it is still an operand."""
+    G = CallGraph(P)
+    reordering = set()
+    for f in P.methods('dd.bdd', 'BDD'):
+        seen, todo = set(), [f.qualname]
+        while todo:
+            q = todo.pop()
+            if q in seen:
+                continue
+            seen.add(q)
+            g = P.func(q, required=False)
+            if g is not None and (reord_decorated(g) or g.name in (
+                    'collect_garbage', '_request_reordering')):
+                reordering.add(f.name)
+                break
+            todo.extend(e.callee for e in G.out.get(q, []) if e.callee)
+    R.count('manager methods that may reorder or collect',
+            len(reordering))
+    if len(reordering) < 5:
+        raise AnalysisError(
+            f'R-PAIR/operands-held: only {len(reordering)} decorated '
+            'manager methods found')
+    n = 0
+    for f in sorted(P.all_funcs({'dd.autoref'}), key=lambda f: f.qualname):
+        a = f.node.args
+        params = {p.arg for p in a.posonlyargs + a.args + a.kwonlyargs}
+        if a.vararg:
+            params.add(a.vararg.arg)
+        if a.kwarg:
+            params.add(a.kwarg.arg)
+        params.discard('self')
+        calls = [c for c in au.calls_in(f.node)
+                 if au.call_name(c) in reordering and (
+                     au.call_recv(c) or [None])[-1] in ('_bdd', 'bdd')]
+        if not calls or not params:
+            continue
+        n += 1
+        last = max(c.lineno for c in calls)
+        bad = None
+        for s in au.walk_no_defs(f.node):
+            tg = []
+            if isinstance(s, ast.Assign):
+                tg = s.targets
+            elif isinstance(s, (ast.AugAssign, ast.AnnAssign)):
+                tg = [s.target]
+            elif isinstance(s, ast.Delete):
+                tg = s.targets
+            elif isinstance(s, (ast.For, ast.AsyncFor)):
+                tg = [s.target]
+            elif isinstance(s, ast.With):
+                tg = [i.optional_vars for i in s.items if i.optional_vars]
+            for t in tg:
+                for x in ast.walk(t):
+                    if isinstance(x, ast.Name) and x.id in params and \
+                            isinstance(x.ctx, (ast.Store, ast.Del)) and \
+                            s.lineno <= last:
+                        bad = bad or (s, x.id)
+        if bad:
+            s, name = bad
+            c = min(calls, key=lambda c: c.lineno)
+            R.violation(
+                'R-PAIR', 'operand-released-early', f.qualname, name,
+                f'`{au.short(s, 60)}` rebinds the parameter `{name}` '
+                f'before `{au.short(c, 40)}` has returned: if the caller '
+                'passed a temporary, its Function objects are destroyed '
+                'here, their nodes lose the reference that protects '
+                'them, and a reordering inside the manager call collects '
+                'nodes that are still operands', unit=f.unit.rel,
+                line=s.lineno)
+        else:
+            R.holds('R-PAIR', f.qualname,
+                    f'parameters {sorted(params)} stay bound across '
+                    f'{len(calls)} reordering manager call(s)',
+                    nontrivial=False)
+    R.floor('R-PAIR operands held across reordering calls', n, 5)
+
+
+def numbers_kept(P, R):
+    """dd._copy works through the reference-counting interface.  A node
+    number put aside in a container (`cache[k] = int(u)`) is not a
+    reference: unless the same block takes an explicit count
+    (`bdd.incref(u)`), the node may be collected, and its number given to
+    another node, before the container is read again."""
+    n = 0
+    for f in sorted(P.all_funcs({'dd._copy'}), key=lambda f: f.qualname):
+        for blk in au.blocks_of(f.node):
+            for s in blk:
+                if not (isinstance(s, ast.Assign) and isinstance(
+                        s.targets[0], ast.Subscript)):
+                    continue
+                v = s.value
+                if not (isinstance(v, ast.Call) and au.call_name(
+                        v) == 'int' and len(v.args) == 1 and isinstance(
+                            v.args[0], ast.Name)):
+                    continue
+                h = v.args[0].id
+                cont = au.chain(s.targets[0].value)
+                if not cont or cont[0] not in f.params:
+                    continue
+                n += 1
+                kept = any(
+                    au.call_name(c) == 'incref' and c.args and au.is_name(
+                        c.args[0], h)
+                    for t in blk for c in au.calls_in(t))
+                if kept:
+                    R.holds('R-PAIR', f.qualname,
+                            f'`{au.short(s, 50)}` is paired with '
+                            f'incref({h})')
+                else:
+                    R.violation(
+                        'R-PAIR', 'number-without-reference', f.qualname,
+                        au.short(s.targets[0].value, 30),
+                        f'`{au.short(s, 60)}` keeps the number of node '
+                        f'`{h}` but no reference to it: when `{h}` goes '
+                        'out of scope the node can be collected (a '
+                        'reordering in a later manager call does that) '
+                        'and the number read back from the container '
+                        'denotes a deleted or re-used node',
+                        unit=f.unit.rel, line=s.lineno)
+    R.floor('R-PAIR node numbers kept with a reference', n, 1)
+
+
+def r_numbers(P, R):
+    numbers_kept(P, R)
+r_numbers.NAME = 'R-PAIR(node numbers kept with a reference)'
+
+
+def reord_decorated(f):
+    return '_try_to_reorder' in f.decorators
+
+
 def r_handles(P, R):
+    operands_held(P, R)
+    numbers_kept(P, R)
     handle_ownership(P, R)
     shutdown_check(P, R)
     escape(P, R)
